@@ -1,3 +1,4 @@
+import ZCV.Lemmas.HandlersCall
 import ZCV.Model.LogTemplate
 import ZCV.Model.Resources2
 import ZCV.Model.Validator
@@ -293,6 +294,21 @@ def handle (st : DState) : SExp → DState × SExp
   | .list [.atom "logtpl", .str raw] =>
     (st, .list [ofBool (LogTemplate.acceptsTemplate (LogFormat.ctrlCharInsert raw)),
                 ofBool (LogTemplate.acceptsSafeTemplate (LogFormat.ctrlCharInsert raw))])
+  -- (hcall ("handler name of entry 0" …) (("supplied name" id|none) …)) → (ok (id …)) | (err notunique "name") | (err undefined ("n" …)) | (err badname "name")
+  | .list [.atom "hcall", .list entries, .list items] =>
+    (st, match entries.mapM (fun (e : SExp) => match e with | .str n => some n | _ => none),
+               items.mapM (fun (i : SExp) => match i with
+                 | .list [.str n, .atom "none"] => some (n, (none : Option Nat))
+                 | .list [.str n, k] => (getNat? k).map fun j => (n, some j)
+                 | _ => none) with
+      | some es, some hm =>
+        let r := Call.callHandlers (es.zipIdx.map fun (n, i) => (n, Val.int i)) hm
+        (match r.err with
+         | none => .list [.atom "ok", .list (r.log.map fun (f, _) => ofNat f)]
+         | some (.notUnique n) => .list [.atom "err", .atom "notunique", .str n]
+         | some (.undefined ns) => .list [.atom "err", .atom "undefined", .list (ns.map .str)]
+         | some (.badName n _) => .list [.atom "err", .atom "badname", .str n])
+      | _, _ => .list [.atom "bad-request", .atom "hcall"])
   | .list [.atom "ping"] => (st, .atom "pong")
   | _ => (st, .list [.atom "bad-request"])
 
